@@ -2,6 +2,7 @@ import NixModel.Pure.Dim
 import NixModel.Pure.DimSpec
 import NixModel.Lemmas.C07Sep
 import NixModel.Lemmas.C07Session
+import NixModel.Generated.DimShape
 
 /-!
 # C07 — dimension descriptors map positions to sample indices by order, exactly
@@ -306,6 +307,47 @@ example : sampledIndexOf (-5) 2 0 .less = .ok 2 ∧ sampledIndexOf (-5) 1 0 .les
     sampledIndexOf 0 1 (1000004 / 10) .geq = .ok 100001 := by decide +kernel
 example : setIndexOf 3 (5 / 2) .geq = .error .indexError ∧ setIndexOf 0 (5 / 2) .geq = .ok 3 := by
   decide +kernel
+
+/-! ## the decision shape of the three `index_of` methods is the one the translator reads from the source
+
+`Generated/DimShape.lean` holds, per method, the tree of guards, rounding calls, `np.where` scans and
+results / exceptions per mode that `harness/extract/dims.py` reads from the method body
+(`Pure/DimShapeLang.lean` gives it meaning).  The hand-written model — the one all theorems above are
+about — computes exactly what the generated tree computes, for all inputs: an edited comparison, a
+reordered guard, another rounding call or result in the source breaks one of these three theorems. -/
+
+section Shape
+open Nix.Dim.Shape
+
+theorem sampled_index_shape (off si pos : Rat) (mode : IndexMode) (hsi : si ≠ 0) :
+    sampledIndexOf off si pos mode =
+      eval { position := pos, scaled := (pos - off) / si, mode := mode, tols := [sampledZeroTol, sampledHitTol] }
+        sampledIndexOfTree 0 := by
+  unfold sampledIndexOf
+  rw [show sampledRounding = "round" from rfl, show sampledZeroOnScaled = true from rfl]
+  cases mode <;>
+  simp [sampledIndexOfT, sampledIndexOfTree, eval, evalTest, evalVal, evalRes, hsi, errOf, IndexMode.ofName] <;>
+  simp only [ltB, decide_eq_true_eq]
+
+theorem range_index_shape (ticks : List Rat) (t0 tl pos : Rat) (mode : IndexMode)
+    (h0 : ticks.head? = some t0) (hl : ticks.getLast? = some tl) :
+    rangeIndexOf ticks pos mode =
+      eval { position := pos, ticks := ticks, first := t0, last := tl, len := ticks.length, mode := mode }
+        rangeIndexOfTree 0 := by
+  cases mode <;>
+  simp [rangeIndexOf, h0, hl, rangeIndexOfTree, eval, evalTest, evalVal, evalRes, errOf, IndexMode.ofName, cmpOf] <;>
+  simp only [ltB, decide_eq_true_eq]
+
+theorem set_index_shape (n : Nat) (pos : Rat) (mode : IndexMode) :
+    setIndexOf n pos mode =
+      eval { position := pos, len := n, mode := mode, tols := [setHitTol] } setIndexOfTree 0 := by
+  unfold setIndexOf
+  rw [show setRounding = "floor" from rfl]
+  cases mode <;>
+  simp [setIndexOfT, setIndexOfTree, eval, evalTest, evalVal, evalRes, errOf, IndexMode.ofName] <;>
+  simp only [ltB, eqB, decide_eq_true_eq]
+
+end Shape
 
 /-! ## sessions: the configuration changes between the questions, descriptor objects stay alive
 
